@@ -268,6 +268,11 @@ class Filer(hioing.Mixin):
         if os.path.isabs(base):
             raise hioing.FilerError(f"Not relative {base=} path.")
 
+        rel = os.path.normpath(os.path.join(base, name))
+        if rel == os.pardir or rel.startswith(os.pardir + os.path.sep):
+            raise hioing.FilerError(f"Relative {base=} and {name=} escape "
+                                    f"head directory.")
+
         file = None
         temp = True if temp else False
 
@@ -433,6 +438,11 @@ class Filer(hioing.Mixin):
 
         if os.path.isabs(base):
             raise hioing.FilerError(f"Not relative {base=} path.")
+
+        rel = os.path.normpath(os.path.join(base, name))
+        if rel == os.pardir or rel.startswith(os.pardir + os.path.sep):
+            raise hioing.FilerError(f"Relative {base=} and {name=} escape "
+                                    f"head directory.")
 
         # use class defaults here so can use makePath for other dirs and files
         if headDirPath is None:
